@@ -10,6 +10,7 @@ import GoLevel.Driver.Mem
 import GoLevel.Driver.Life
 import GoLevel.Driver.Cache
 import GoLevel.Driver.RefLoop
+import GoLevel.Driver.Durable
 /-! `gldriver`: reads one operation per line on stdin, answers one line per operation on stdout.
 The first token selects the layer.  Core-only (must link). -/
 open GoLevel GoLevel.Driver
@@ -22,6 +23,7 @@ structure DState where
   mem : MemState := {}
   cache : CacheSt := {}
   ref : RefSt := {}
+  dur : DurState := {}
 
 def dispatch (st : DState) (line : String) : DState × String :=
   let toks := (line.splitOn " ").filter (· ≠ "")
@@ -54,6 +56,10 @@ def dispatch (st : DState) (line : String) : DState × String :=
   | "ref" :: rest =>
     match handleRef st.ref rest with
     | some (r', out) => ({ st with ref := r' }, out)
+    | none => (st, "bad-op")
+  | "dur" :: rest =>
+    match handleDur st.dur rest with
+    | some (d', out) => ({ st with dur := d' }, out)
     | none => (st, "bad-op")
   | "it" :: rest =>
     match handleIt st.it rest with
